@@ -14,6 +14,9 @@ def c14(tier):
         Harness('VHarnessTokenRoundTrip', 'cashu', ['cashu/zz_verif_cashu.go'], models=('std', 'crypto', 'json'), panic_mode='obligation',
                 bounds='0..2 proofs with arbitrary amount / secret / witness / mint URL strings, id / C / e / s / r = hex of arbitrary byte strings (any length, also empty), DLEQ present or absent per proof, includeDLEQ both ways, V3 and V4',
                 must_reach=('round-trip', 'not-built')),
+        Harness('VHarnessTokenRoundTrip3', 'cashu', ['cashu/zz_verif_cashu.go'], models=('std', 'crypto', 'json'), panic_mode='obligation',
+                bounds='as VHarnessTokenRoundTrip with exactly 3 proofs (keyset ids equal or different in every pattern, e.g. A B A)',
+                must_reach=('round-trip', 'not-built')),
     ]
 
 def c02(tier):
@@ -62,12 +65,13 @@ def c06(tier):
         mint_h('VHarnessMintQuoteC06', 'mint quote: arbitrary amount/unit/limits', must_reach=('mint-quote-accepted', 'mint-quote-refused'), **kw),
         mint_h('VHarnessMeltQuoteC06', 'melt quote: real invoice or garbage, optional MPP', must_reach=('melt-quote-accepted', 'melt-quote-refused'), **kw),
         mint_h('VHarnessQueryC06', 'checkstate / restore: 0..2 arbitrary entries; 2+1+2 arbitrary rows', must_reach=('checkstate-ok', 'restore-ok'), **kw),
-        mint_h('VHarnessSigAllSwapP2PK', 'melt of a genuine SIG_ALL P2PK input (refused: whole-database comparison), then its swap', summaries=('h2c', 'nut10'), must_reach=('helpers-accepted', 'unsigned-rejected')),
+        mint_h('VHarnessSigAllSwapP2PK', 'melt of a genuine SIG_ALL P2PK input (refused: whole-database comparison), then its swap', summaries=('h2c', 'nut10'), must_reach=('helpers-accepted', 'unsigned-rejected', 'mixed-rejected')),
     ]
 def c15(tier):
     return [
         mint_h('VHarnessQueryC15', 'checkstate / restore: 0..2 arbitrary entries; 2 spent + 1 pending + 2 signature arbitrary rows', must_reach=('checkstate-ok', 'restore-ok')),
         mint_h('VHarnessSwapC15', 'swap then checkstate + restore: <= 2 inputs, <= 2 outputs', must_reach=('swap-accepted',)),
+        mint_h('VHarnessMeltC05', 'melt of 1 input carrying an arbitrary witness + 1 poll (quote state or checkstate) with a scripted backend (<= 3 answers), then a final state check: state and witness reported for every path the input took', must_reach=('poll-1',)),
     ]
 def c16(tier):
     wide = [mint_h('VHarnessMintQuoteC16Wide', 'mint quote: amount/limits full 64 bit; ledger of 2 signature rows + 1 spent row (total issued < 2^62)', must_reach=('mint-quote-accepted', 'mint-quote-refused'), timeout_s=1800)] if tier == 'thorough' else []
@@ -100,7 +104,7 @@ def c12(tier):
                 must_reach=('accepted', 'rejected')),
           n11_h('VHarnessP2PKComplete', 'canonical witness of AddSignatureToInputs for every lock with n_sigs <= 1, 0..2 co-signers, 0..1 refund keys, any locktime', must_reach=('canonical-accepted',)),
           n11_h('VHarnessSigAllPosition', '1..3 inputs, each plain / SIG_INPUTS / SIG_ALL', must_reach=('checked',))]
-    hs.append(mint_h('VHarnessSigAllSwapP2PK', 'mint swap/melt with a SIG_ALL P2PK input (n_sigs <= 1, <= 1 co-signer), optionally behind a plain input; outputs signed by the helper / unsigned / signed by a foreign key', summaries=('h2c', 'nut10'), must_reach=('helpers-accepted', 'unsigned-rejected')))
+    hs.append(mint_h('VHarnessSigAllSwapP2PK', 'mint swap/melt with a SIG_ALL P2PK input (n_sigs <= 1, <= 1 co-signer), optionally behind a plain input; outputs signed by the helper / unsigned / signed by a foreign key', summaries=('h2c', 'nut10'), must_reach=('helpers-accepted', 'unsigned-rejected', 'mixed-rejected')))
     if tier == 'thorough':
         hs.append(n11_h('VHarnessP2PKSoundWide', 'as VHarnessP2PKSound with n_sigs 0..3, 0..2 co-signers, 0..2 refund keys, 0..3 signatures', must_reach=('accepted', 'rejected'), timeout_s=3000))
     return hs
@@ -111,7 +115,7 @@ def n14_h(name, bounds, **kw):
 def c13(tier):
     hs = [n14_h('VHarnessHTLCSound', 'HTLC: hash well-formed/short/garbage, preimage right/other/non-hex/empty; lock n_sigs 0..2, 0..1 listed keys, 0..1 refund keys, any locktime; 0..2 signatures', must_reach=('accepted', 'rejected')),
           n14_h('VHarnessHTLCComplete', 'canonical witness of AddWitnessHTLC for every lock with n_sigs <= 1, 0..2 listed keys, before the locktime', must_reach=('canonical-accepted',))]
-    hs.append(mint_h('VHarnessSigAllSwapHTLC', 'mint swap/melt with a SIG_ALL HTLC input (n_sigs = 1, 1 listed key), optionally behind a plain input; outputs carry the helper witness / none / a foreign signature', summaries=('h2c', 'nut10'), must_reach=('helpers-accepted', 'unsigned-rejected')))
+    hs.append(mint_h('VHarnessSigAllSwapHTLC', 'mint swap/melt with a SIG_ALL HTLC input (n_sigs = 1, 1 listed key), optionally behind a plain input; outputs carry the helper witness / none / a foreign signature', summaries=('h2c', 'nut10'), must_reach=('helpers-accepted', 'unsigned-rejected', 'mixed-rejected')))
     if tier == 'thorough':
         hs.append(n14_h('VHarnessHTLCSoundWide', 'as VHarnessHTLCSound with n_sigs 0..2, 0..2 keys, 0..2 refund keys, 0..2 signatures', must_reach=('accepted', 'rejected'), timeout_s=3000))
     return hs
@@ -122,7 +126,7 @@ P2PK_ASSUME = COMMON_ASSUME + [
     'nut10 (de)serialisation summarised as an injective constructor (DESIGN.md 4.6)']
 
 def c04(tier):
-    return [mint_h('VHarnessVerifyProofs', '1 proof: genuine (keyset / denomination symbolic) / arbitrary / 7 single-field mutation classes of a genuine proof (amount, keyset id, C of another proof, other C, parity bit of C, secret, oversize secret); 2 keysets x 3 denominations', must_reach=('genuine', 'mutated'))]
+    return [mint_h('VHarnessVerifyProofs', '1 proof: genuine (keyset / denomination symbolic) / arbitrary / 7 single-field mutation classes of a genuine proof (amount, keyset id, C of another proof, other C, parity bit of C, secret, oversize secret) + the amount mutation in second position behind a genuine input; 2 keysets x 3 denominations', must_reach=('genuine', 'mutated'))]
 def c09(tier):
     F = ['crypto/zz_verif_bdhke.go', 'crypto/zz_verif_derive.go']
     return [mint_h('VHarnessSignAndFees', '1 arbitrary output against 2 keysets; fee of 0..3 inputs over both keysets, ppk < 2^32', must_reach=('signed', 'refused')),
